@@ -31,7 +31,7 @@ RULE = (
 ASSUMPTIONS = [
     "pyanalyze derives the same Signature for a def whether it reads the AST (e2e stream) or the function object (unit stream); differences show as a disagreement between the two streams",
     "ELLIPSIS / PARAM_SPEC parameter kinds and Callable[..., T] actuals are outside the model (not producible by a def)",
-    "star-argument expansions are enumerated up to length max(4, #params+1) and dict expansions up to 3 keys",
+    "star-argument expansions are enumerated up to length max(4, #params+1); dict expansions over every subset of the parameter names plus one foreign name (bind_star_accept proves a binding expansion within these bounds exists whenever the model accepts)",
 ]
 TRUSTED = ["Spec/CpyBind.lean (cpyBind) is validated against real calls on every run (stream spec)"]
 
@@ -175,7 +175,8 @@ def expansions(ps, args):
     lens = list(itertools.product(range(maxlen + 1), repeat=nS))
     keysets = [()]
     if nD:
-        keysets = [ks for r in range(4) for ks in itertools.combinations(names, r)]
+        # every subset of the parameter names (+ one foreign name): a binding expansion may need all of them
+        keysets = [ks for r in range(len(names) + 1) for ks in itertools.combinations(names, r)]
     for ls in lens:
         for ks in keysets:
             yield (all(l > 0 for l in ls) and (not nD or len(ks) > 0)), ls, ks
